@@ -153,8 +153,15 @@ def source_spec(draw, props=("kepler", "kepler", "j2", "sgp4", "keplernum", "eph
     period = period_of(case)
     nmax = 90 if prop == "keplernum" else 200
     periods = min(draw(go.uniform(1.0, 4.0)), nmax * 1200.0 / period)
+    if prop == "ephem":
+        periods = min(periods, nmax / 18.0 * 0.95)
     smin = max(20.0, periods * period / nmax)
     smax = min(1200.0, period / 2.5)
+    if prop == "ephem":
+        # an Ephem interpolates (Lagrange, 8 points) between its stored points: the table must resolve the
+        # orbit (<= 20 deg of mean motion per point), otherwise the interpolated path itself wanders (C09)
+        smax = min(smax, period / 18.0)
+        periods = min(periods, nmax * smax / period)
     step = round(math.exp(draw(go.uniform(math.log(smin), math.log(max(smin * 1.01, smax))))), 3)
     if draw(st.integers(0, 3)) == 0:
         step = float(max(20, round(step / 10) * 10))
